@@ -82,8 +82,19 @@ def sched(prop, level_text, required, extra_legs=(), **kw):
 HIST_LEG = dict(name='hist', bin='hist', shards=8, timeout=dict(quick=400, thorough=3600), args=dict(cases=dict(quick=6000, thorough=100000)))
 
 PROPS = {
+    'C17': dict(
+        legs=[dict(name='native', bin='aio', shards=16, timeout=dict(quick=400, thorough=3600))],
+        rule='evaluations = transfers of a random byte string (1 B .. 512 KiB quick / 4 MiB thorough) through Async adapters over a socketpair or pipe with random chunk sizes (1 B .. 1 MiB), '
+             'write/write_all/write_vectored/writable()+direct write against read/read_vectored/readable()+direct read, peer as task or as blocking thread, tasks on calloop\'s executor or under block_on, '
+             'fds blocking or non-blocking beforehand, adapters ended by drop or into_inner; every transfer is non-trivial; distinct = distinct (size class, chunk class, transport, who is a thread, modes, blocking-before, driver, ending) tuples',
+        assumptions=COMMON_ASSUME + ['two tasks polling one adapter concurrently are outside the statement (&mut API, one waker slot) and are not generated',
+                                     '"always completes" is restated as: no 100 ms dispatch may pass without a task poll while a pending task\'s fd is ready for what it awaits (poll(2)); a mere watchdog expiry is inconclusive'],
+        level_text='sampled runtime exploration: 1.6k (quick) / 40k (thorough) transfers checked byte for byte, with the kernel-readiness lost-wake predicate, O_NONBLOCK inside the adapter and restored after drop/into_inner (F_GETFL), and re-adaptation of the unwrapped fd.',
+        level_note='trusted: poll(2)/fcntl as oracle, futures-util\'s AsyncReadExt/AsyncWriteExt combinators, the per-task poll counter',
+        technique='runtime monitoring: randomized byte-stream transfers with content comparison and kernel-state predicates',
+    ),
     'C19': dict(
-        legs=[dict(name='native', bin='sig', shards=16, timeout=dict(quick=300, thorough=3000))],
+        legs=[dict(name='native', bin='sig', shards=16, timeout=dict(quick=300, thorough=3000), args=dict(cases=dict(quick=480000, thorough=16000000)))],
         rule='evaluations = histories over {Signals::new, add_signals, remove_signals, set_signals with arbitrary subsets, kill(getpid) 1..3 times, dispatch, drop} '
              'of 3 signals (length <= 5) and of 6 signals (length <= 12), each executed in a single-threaded process from the pristine signal state, with counting '
              'sigaction handlers as witnesses of unblocked deliveries; non-trivial = a signal was reported or the mask changed while a signal was pending; '
@@ -91,7 +102,7 @@ PROPS = {
         assumptions=COMMON_ASSUME + ['standard signals coalesce: the oracle works on the set of pending signals, not on counts',
                                      'a pending instance of a signal that gets de-configured may go to the process handler or be dropped; both are accepted',
                                      'one process runs many histories; each must return to the pristine state (checked) before the next starts'],
-        level_text='sampled runtime exploration: 80k (quick) / 1.6M (thorough) histories; after every call pthread_sigmask must equal the configured set, sigpending must still hold every configured raised signal, '
+        level_text='sampled runtime exploration: 480k (quick) / 16M (thorough) histories; after every call pthread_sigmask must equal the configured set, sigpending must still hold every configured raised signal, '
                    'handler counters must equal the raises of unconfigured signals; every dispatch must report exactly the pending configured set with signal number, pid and uid; drop unblocks.',
         level_note='trusted: the kernel\'s pthread_sigmask/sigpending/sigaction as oracle, the small set model (configured, pending) in the engine',
         technique='runtime monitoring: generated operation histories in a single-threaded process with kernel signal state as oracle',
